@@ -739,6 +739,32 @@ def simp(t):
 
 ESCAPED = ('escaped', ())
 
+NONE_T = ('variant', 'core::option::Option', 0, 'None', (), 0)
+OPTION_INLINED = ('map', 'and_then', 'map_or', 'map_or_else', 'unwrap_or_else', 'unwrap_or')
+
+
+def some_t(x):
+    return ('variant', 'core::option::Option', 1, 'Some', (x,), 1)
+
+
+def subst_term(t, amap, caps=None):
+    """substitute terms (amap: term -> term) and, when caps is given, the closure environment fields `_1.k` / `(*_1).k` by caps[k];
+    re-simplifies on the way up"""
+    if not isinstance(t, tuple) or not t:
+        return t
+    if t in amap:
+        return amap[t]
+    if caps is not None and t[0] == 'field' and t[1] in (('param', 1), ('deref', ('param', 1))) and isinstance(t[2], int) and t[2] < len(caps):
+        return caps[t[2]]
+    if not isinstance(t[0], str):
+        return tuple(subst_term(x, amap, caps) if isinstance(x, tuple) else x for x in t)
+    if t[0] in ('static', 'fn', 'const', 'cst', 'opaque', 'uninit'):
+        return t
+    out = tuple(subst_term(x, amap, caps) if isinstance(x, tuple) else x for x in t)
+    if out[0] in ('deref', 'ref', 'field', 'downcast', 'discr', 'bin', 'un'):
+        return simp(out)
+    return out
+
 
 class Walker:
     """Enumerates acyclic paths of `body` from `start` and evaluates them symbolically.
@@ -944,6 +970,65 @@ class Walker:
             return simp(('ref', self.as_value(env, self.read_key(env, t[1]))))
         return t
 
+    def closure_alternatives(self, clo, argterms):
+        """[(conds, events, result)] of a pure, loop-free closure applied to argterms, expressed in the caller's terms; None if the
+        closure cannot be evaluated that way (unknown body, loops, impure calls, stores, divergence, too many paths)"""
+        if self.facts is None or not isinstance(clo, tuple) or not clo or clo[0] != 'closure':
+            return None
+        cb = self.facts.bodies.get(clo[1])
+        if cb is None or cb.loops() or cb.arg_count != 1 + len(argterms):
+            return None
+        key = ('cloalts', clo[1])
+        cache = self.facts.__dict__.setdefault('_cloalts', {})
+        if key not in cache:
+            w = Walker(cb, self.facts, max_paths=6)
+            w.inline_depth = getattr(self, 'inline_depth', 0) + 1
+            ps = w.run()
+            ok = not w.overflow and bool(ps) and not getattr(w, 'impure', 0) and all(p.end[0] == 'return' for p in ps) \
+                and not any(e[0] in ('store', 'drop') for p in ps for e in p.events)
+            cache[key] = ps if ok else None
+        ps = cache[key]
+        if ps is None:
+            return None
+        amap = {('param', i + 2): a for i, a in enumerate(argterms)}
+        caps = clo[2]
+        out = []
+        for p in ps:
+            conds = [(subst_term(c, amap, caps), v) for c, v in p.conds]
+            evs = []
+            for e in p.events:
+                if e[0] == 'call':
+                    evs.append(('call', None, e[2], tuple(subst_term(a, amap, caps) for a in e[3]), None, subst_term(e[5], amap, caps), e[6] if len(e) > 6 else None))
+            out.append((conds, evs, subst_term(p.end[1], amap, caps)))
+        return out
+
+    def inline_option_call(self, c, ckey, args):
+        """Option combinators as the match they stand for: [(discriminant of the receiver, conds, events, result)] or None"""
+        name = c['name']
+        if name not in OPTION_INLINED or not ckey.startswith('core::option::Option') or not args or getattr(self, 'inline_depth', 0) > 2:
+            return None
+        opt = args[0]
+        payload = simp(('field', simp(('downcast', opt, 1, 'Some')), 0, '0'))
+        if name == 'unwrap_or' and len(args) == 2:
+            return [(0, [], [], args[1]), (1, [], [], payload)]
+        if name == 'unwrap_or_else' and len(args) == 2:
+            d = self.closure_alternatives(args[1], [])
+            return None if d is None else [(0,) + x for x in d] + [(1, [], [], payload)]
+        if name == 'map' and len(args) == 2:
+            f = self.closure_alternatives(args[1], [payload])
+            return None if f is None else [(0, [], [], NONE_T)] + [(1, cs, es, some_t(r)) for cs, es, r in f]
+        if name == 'and_then' and len(args) == 2:
+            f = self.closure_alternatives(args[1], [payload])
+            return None if f is None else [(0, [], [], NONE_T)] + [(1,) + x for x in f]
+        if name == 'map_or' and len(args) == 3:
+            f = self.closure_alternatives(args[2], [payload])
+            return None if f is None else [(0, [], [], args[1])] + [(1,) + x for x in f]
+        if name == 'map_or_else' and len(args) == 3:
+            d = self.closure_alternatives(args[1], [])
+            f = self.closure_alternatives(args[2], [payload])
+            return None if d is None or f is None else [(0,) + x for x in d] + [(1,) + x for x in f]
+        return None
+
     # -- the walk
     def run(self, start=0, stop=None, env=None, follow_back_edges=False):
         if start is None:
@@ -1040,7 +1125,40 @@ class Walker:
                         l = op_local(op)
                         if l is not None and self.body.lty(l).startswith('&mut '):
                             has_mut = True
+                if c is not None and t['ret'] is not None and getattr(self, 'inline_closures', True):
+                    alts = self.inline_option_call(c, c.get('resolved') or c['path'], args)
+                    if alts is not None:
+                        d = simp(('discr', args[0]))
+                        kn = d[1] if is_const(d) else known.get(d)
+                        feas = [a for a in alts if kn is None or (a[0] == kn if isinstance(kn, int) else a[0] not in kn)]
+                        if not feas:
+                            return
+                        self.universe[d] = frozenset((0, 1))
+                        for i, (dv, cs, es, r) in enumerate(feas):
+                            last = i == len(feas) - 1
+                            if last:
+                                p2, e2, k2 = path, env, dict(known)
+                            else:
+                                p2 = Path()
+                                p2.blocks = list(path.blocks)
+                                p2.conds = list(path.conds)
+                                p2.events = list(path.events)
+                                e2, k2 = dict(env), dict(known)
+                            if not isinstance(kn, int):
+                                p2.conds = p2.conds + [(d, dv)]
+                                k2[d] = dv
+                            p2.conds = p2.conds + [cv for cv in cs if not (is_const(cv[0]))]
+                            p2.events = p2.events + [('call', bb) + e[2:] for e in es]
+                            self.write_key(e2, pkey(t['dest']), r)
+                            if not last:
+                                self._walk(t['ret'], e2, p2, k2, onpath)
+                            else:
+                                known = k2
+                        bb = t['ret']
+                        continue
                 self.counter += 1
+                if c is None or has_mut:
+                    self.impure = getattr(self, 'impure', 0) + 1
                 if c is None:
                     res = ('icall', self.as_value(env, self.operand(env, t['callee']['indirect'])), args, self.counter)
                     ckey = None
